@@ -52,6 +52,8 @@ META = dict(
               " the conjugation of the index; independently derived oracle for Yang's"
               ' Q_n ratio; slot-by-slot hand-off of the per-sphere quantities to AMNC'
               'ALC (slots from the Fortran header)'
+              '; Fortran statement rule with DO-nest / block-IF tracking: the running '
+              'product for psi_n in HANKEL excepts order 1'
               '; typed walk over the Fortran assignments (no single-precision quotient of integer variables and default-real literals); exit condition of the order loop of MIE1 (a tolerance-dependent jump is conjoined with a lower bound on the order); Fortran def-use of local work arrays (affine index minimisation over the DO nest: no read below the lowest stored index, with a positive fixture); Fortran error discipline (status argument tested between the CALL and the first read of an output)',
     level_text='Static formula conformance: the expressions coded are, for all n, x, '
                'm, the textbook ones (B&H 4.47, 4.53, 4.74, 4.88; Yang 2003 eqs. '
